@@ -127,6 +127,16 @@ def run(chk):
         cases.append({'config': carrier_yaml(), 'files': {'d0/main.asm': 'nop\n#include "lib.asm"\n', 'd1/lib.asm': 'lab9:\n.byte 7\n'}, 'main': 'd0/main.asm',
                       'links': [('d1/lib.asm', 'd2/lib.asm')], 'include_dirs': ['d1', 'd2'], 'pretty': fmt})
         tags.append(('one file in two directories', 'lib.asm', fmt))
+    # two searched directories whose names differ only in letter case (two directories, not one), the file in one of them; and a
+    # searched directory that holds a DIRECTORY named like the included file: whatever the outcome is, it is the same in every process
+    # and for every order of the -I options
+    for fmt in ('listing', None):
+        cases.append({'config': carrier_yaml(), 'files': {'d0/main.asm': 'nop\n#include "defs.asm"\n', 'inc/Lib/defs.asm': 'lab9:\n.byte 7\n', 'inc/lib/.keep': ''},
+                      'main': 'd0/main.asm', 'include_dirs': ['inc/Lib', 'inc/lib'], 'pretty': fmt})
+        tags.append(('directories that differ in letter case only', 'defs.asm', fmt))
+        cases.append({'config': carrier_yaml(), 'files': {'d0/main.asm': 'nop\n#include "kernel"\n', 'd1/kernel': 'lab9:\n.byte 7\n', 'd2/kernel/.keep': '', 'd3/kernel/.keep': ''},
+                      'main': 'd0/main.asm', 'include_dirs': ['d1', 'd2', 'd3'], 'pretty': fmt})
+        tags.append(('a directory named like the included file', 'kernel', fmt))
     # long comments (wider than any terminal) and text beyond ASCII in comments and strings
     longc = 'start:\nld8 1 ; ' + 'a comment that is much wider than a terminal of forty columns ' * 4 + '\n.cstr "caf\u00e9 \u00e0 la carte"  ; \u00fcber\nafter:\n.2byte after\n'
     for fmt in FORMATS:
